@@ -7,8 +7,8 @@
        tokens); the earlier exhaustive check over the 49537 trees with at most four operators is kept as a test;
    (2) the operator, function and reserved-word tables regenerated from the sources are the standard ones.
    Not proved (trusted, exercised by the stream): CPython's ast.parse, the re module, sympy's arithmetic. *)
-From Coq Require Import List String QArith.
-From Bq Require Import Expr StdSem Parser ParserFacts ParserRoundTrip.
+From Coq Require Import List String QArith ZArith.
+From Bq Require Import Expr StdSem Parser ParserFacts ParserRoundTrip MultiplicityFacts.
 From BqGen Require Import GenParser.
 Import ListNotations.
 Open Scope string_scope.
@@ -71,3 +71,11 @@ Print Assumptions C11_unknown_functions_uninterpreted.
 Theorem C11_lookup_is_by_lower_case_name : gen_function_lookup_is_caseless = true.
 Proof. reflexivity. Qed.
 Print Assumptions C11_lookup_is_by_lower_case_name.
+
+(* a built-in whose reading the model carries in full: multiplicity(p, n) is the p-adic valuation of n, also for
+   negative n (p >= 2, n <> 0, |n| < 2^200) *)
+Theorem C11_multiplicity_is_the_valuation : forall (p n : Z) v,
+  multiplicityQ (inject_Z p) (inject_Z n) = Some v ->
+  exists k, v = inject_Z k /\ (0 <= k)%Z /\ (p ^ k | n)%Z /\ ~ (p ^ (k + 1) | n)%Z.
+Proof. exact multiplicity_meaning. Qed.
+Print Assumptions C11_multiplicity_is_the_valuation.
